@@ -235,3 +235,33 @@ Proof.
   inversion H as [[Hx Ht]]. destruct (IH b ltac:(lia) Ht) as [-> ->].
   split; [|reflexivity]. f_equal. destruct x, y; cbn in Hx; congruence.
 Qed.
+
+(* ---------- matches come in strictly increasing position order (block order, no position twice) ---------- *)
+From Coq Require Import Sorting.Sorted.
+
+Lemma ssorted_app {A} (R : A -> A -> Prop) (l1 l2 : list A) :
+  StronglySorted R l1 -> StronglySorted R l2 ->
+  (forall a b, In a l1 -> In b l2 -> R a b) -> StronglySorted R (l1 ++ l2).
+Proof.
+  induction l1 as [|x l1 IH]; intros H1 H2 H12; [exact H2|].
+  cbn [app]. inversion H1 as [|? ? Hs Hf]; subst. constructor.
+  - apply IH; auto. intros a b Ha Hb. apply H12; [right; exact Ha|exact Hb].
+  - apply Forall_forall. intros y Hy. apply in_app_or in Hy as [Hy|Hy].
+    + rewrite Forall_forall in Hf. apply Hf, Hy.
+    + apply H12; [left; reflexivity|exact Hy].
+Qed.
+
+Lemma matches_increasing (node_hash : hash -> hash -> hash) n : forall h pos t,
+  pos < width n h -> shape n h pos t -> StronglySorted pos_lt (pmt_matches pos t).
+Proof.
+  induction h as [|h' IH]; intros pos t Hpos Hshape.
+  - destruct t as [m y| | |]; try contradiction. destruct m; cbn [pmt_matches]; repeat constructor.
+  - pose proof (width_child_l _ _ _ Hpos) as Hl.
+    destruct t as [| |l|l r]; try contradiction; cbn [pmt_matches].
+    + constructor.
+    + destruct Hshape as [Hw Hsl]. apply IH; assumption.
+    + destruct Hshape as (Hw & Hsl & Hsr). apply ssorted_app; [apply IH; assumption|apply IH; assumption|].
+      intros [p x] [q y] Ha Hb. unfold pos_lt. cbn [fst].
+      pose proof (matches_sorted node_hash n h' (2 * pos) l Hl Hsl p x Ha) as [_ H1].
+      pose proof (matches_sorted node_hash n h' (2 * pos + 1) r Hw Hsr q y Hb) as [H2 _]. lia.
+Qed.
